@@ -61,3 +61,13 @@ let rword_line line =
         | None -> sk_word w ^ " " ^ hexb (List.concat_map (fun r -> encode_rune r) p) ^ " none" ^ tail)
      | None -> "unmodelled")
   | _ -> failwith "rword: bad case"
+
+(* the printer's notation for a parameter expansion (Lex/Reprint.v, print_pexp).
+   Case: braces \t name(hex) \t op(hex) \t word("-" | hex) *)
+let pexp_line line =
+  match String.split_on_char '\t' line with
+  | [b; name; op; w] ->
+    let rs h = runes_of_string (string_of_hex h) in
+    let e = { pbraces = (b = "1"); pname = rs name; pop = rs op; pword = (if w = "-" then None else Some (rs w)) } in
+    hexb (List.concat_map (fun r -> encode_rune r) (print_pexp e))
+  | _ -> failwith "pexp: bad case"
